@@ -21,11 +21,11 @@ import (
 
 // c01PodCtl restricts pod operations (concurrent unit) and collects classification facts.
 type c01PodCtl struct {
-	dests         []string        // groups a pod may be sent to (existing non-parent groups, default, system)
-	staleMigrate  []string        // out/in groups of migrations that used a stale cached pod object
-	reserved      bool            // a reserve took effect
-	track         bool            // record where the pod was after each operation (concurrent unit)
-	seen          []c01PodAt
+	dests        []string // groups a pod may be sent to (existing non-parent groups, default, system)
+	staleMigrate []string // out/in groups of migrations that used a stale cached pod object
+	reserved     bool     // a reserve took effect
+	track        bool     // record where the pod was after each operation (concurrent unit)
+	seen         []c01PodAt
 }
 
 func c01PickDest(r *kit.Rand, dests []string, not string) string {
@@ -410,6 +410,10 @@ func (e *c01Env) quotaOp(r *kit.Rand, rules *c01QuotaRules) (string, *c01Detach)
 						x.lent = !x.lent
 					}
 					what = "re-parent+update"
+				}
+				det.newAncestors = map[string]bool{}
+				for _, a := range e.m.ancestors(x.name) {
+					det.newAncestors[a] = true
 				}
 				c.Op("re-parent %s: %s -> %s (max-limited before=%v)", x.name, old, t, det.limited)
 				e.applyQuota(x, what)
